@@ -2,11 +2,11 @@ module verif
 
 go 1.19
 
-require github.com/biscuit-auth/biscuit-go/v2 v2.0.0
-
 require (
-	github.com/alecthomas/participle/v2 v2.1.1 // indirect
-	google.golang.org/protobuf v1.34.2 // indirect
+	github.com/alecthomas/participle/v2 v2.1.1
+	github.com/biscuit-auth/biscuit-go/v2 v2.0.0
 )
+
+require google.golang.org/protobuf v1.34.2 // indirect
 
 replace github.com/biscuit-auth/biscuit-go/v2 => /repo
